@@ -191,9 +191,11 @@ def _run_spectrum(ctx, spec, rng):
     if kind == "indefinite-degenerate" and len(big) >= 2:
         big[-1] = abs(big[-2]) if len(big) > 2 else big[-1]
     tiny = [float(s_) * float(10.0 ** rng.uniform(-13, -10)) for s_ in rng.choice([-1.0, 1.0], size=int(rng.integers(0, 3)))]
+    # weak but genuine components: far above the documented cut-off 1e-9, far below the strong ones - they must be kept
+    weak = [float(s_) * float(10.0 ** rng.uniform(-7, -4)) for s_ in rng.choice([-1.0, 1.0], size=int(rng.integers(0, 3)))]
     if kind == "psd":
-        tiny = [abs(t_) for t_ in tiny]
-    spec_ = (big + tiny + [0.0] * n)[:n]
+        tiny, weak = [abs(t_) for t_ in tiny], [abs(t_) for t_ in weak]
+    spec_ = (big + weak + tiny + [0.0] * n)[:n]
     spec_ = [spec_[int(i_)] for i_ in rng.permutation(n)]
     u = gen.haar(rng, n, real=not cplx)
     j = ref.herm(u @ np.diag(spec_) @ u.conj().T)
@@ -211,8 +213,8 @@ def _run_spectrum(ctx, spec, rng):
         ka = kb = list(k_lib)
     got = ref.apply_kraus(x, ka, kb) if ka else np.zeros_like(want)
     j_back = ref.choi_of(ka, kb, din) if ka else np.zeros_like(j)
-    tol = 1e-6 + 10 * dropped
-    sig = (kind, cplx, len(tiny), din, dout)
+    tol = 1e-9 + 10 * dropped  # an eigendecomposition of a designed spectrum is accurate to rounding; only the dropped weight is admitted
+    sig = (kind, cplx, len(tiny), len(weak), din, dout)
     det = {"din": din, "dout": dout, "kind": kind, "spectrum": spec_, "weight_below_cutoff": dropped, "pairs_returned": len(ka)}
     ctx.check("O3:choi_to_kraus-action", None, dev=_rel(got, want), tol=tol, sig=sig, nt=True, mech="choi_to_kraus:action[designed-spectrum]", detail=det)
     ctx.check("O3:choi_to_kraus-rebuilds", None, dev=_rel(j_back, j), tol=tol, sig=sig, nt=True, mech="choi_to_kraus:rebuild[designed-spectrum]", detail=det)
